@@ -5,6 +5,7 @@ CONSTANT MaxContent = 17
 CONSTANT MaxSeq = 3
 CONSTANT MaxTotal = 8
 CONSTANT BigPalettes = {}
+CONSTANT BigRequests = {}
 INVARIANT DesignAccepted
 INVARIANT DesignControlled
 INVARIANT Export
